@@ -58,7 +58,8 @@ VARIANTS = [
     V("finalizer masks with blueprint default", ("C05",), "R-FILLFLOW", "core.py", '    fill_value = agg.fill_value["user"]\n    if min_count > 0:', '    fill_value = agg.fill_value[agg.name]\n    if min_count > 0:', must_mention="_finalize_results"),
     V("twin: if fill_value is not None", ("C05",), "", "core.py", '            if fill_value is None:\n                raise ValueError("Filling is required but fill_value is None.")', '            if not (fill_value is not None):\n                raise ValueError("Filling is required but fill_value is None.")', expect="silent"),
     # ---------------- R-PURE / R-ARGS / R-GLOBAL / R-MEMO (C13, C14)
-    V("idx = flat (no copy)", ("C13",), "R-PURE", "core.py", '        idx = flat.copy()', '        idx = flat', must_mention="_factorize_single"),
+    V("idx = flat (no copy)", ("C13", "C03"), "R-PURE", "core.py", '        idx = flat.astype(np.intp)', '        idx = flat', must_mention="_factorize_single"),
+    V("scan combine adds into its right operand (out=)", ("C03", "C13"), "R-PURE", "aggregations.py", '            array=agg.binary_op(reindexed[..., right.group_idx], right.array),', '            array=agg.binary_op(reindexed[..., right.group_idx], right.array, out=right.array),', must_mention="scan_binary_op"),
     V("in-place NaN substitution", ("C13",), "R-PURE", "aggregate_flox.py", '    result = func(group_idx, np.where(isnull(array), fillna, array), *args, **kwargs)', '    array[isnull(array)] = fillna\n    result = func(group_idx, array, *args, **kwargs)', must_mention="_nan_grouped_op"),
     V("array.sort() in a kernel", ("C13",), "R-PURE", "aggregate_flox.py", '    aux = group_idx\n', '    aux = group_idx\n    array.sort()\n', must_mention="_np_grouped_op"),
     V("var wrapper subtracts in place", ("C13",), "R-PURE", "aggregate_npg.py", '    array = array - first[..., group_idx]', '    array -= first[..., group_idx]', must_mention="_var_std_wrapper"),
@@ -102,7 +103,7 @@ VARIANTS = [
     V("ravel sentinel restore deleted", ("C07",), "R-SENTINEL", "core.py", '    group_idx[nan_by_mask] = -1\n    return group_idx', '    return group_idx', must_mention="_ravel_factorized"),
     V("ravel sentinel mask from output", ("C07",), "R-SENTINEL", "core.py", '    nan_by_mask = reduce(np.logical_or, [(f == -1) for f in factorized])', '    nan_by_mask = group_idx == -1', must_mention="_ravel_factorized"),
     # ---------------- R-CONTIG (C03), R-REINDEXDTYPE (C11)
-    V("tree nodes take every k-th block (strided parts)", ("C03",), "R-CONTIG", "dask_array_ops.py", '    parts = [list(partition_all(split_every.get(i, 1), range(n))) for (i, n) in enumerate(numblocks)]',
+    V("tree nodes take every k-th block (strided parts)", ("C03", "C06"), "R-CONTIG", "dask_array_ops.py", '    parts = [list(partition_all(split_every.get(i, 1), range(n))) for (i, n) in enumerate(numblocks)]',
       '    parts = [[tuple(range(j, n, -(-n // split_every.get(i, 1)))) for j in range(-(-n // split_every.get(i, 1)))] for (i, n) in enumerate(numblocks)]', must_mention="strided"),
     V("tree nodes from a helper with strided ranges", ("C03",), "R-CONTIG", "dask_array_ops.py", '@lru_cache\ndef get_parts(split_every_items, chunks):',
       'def _balanced_parts(n, size):\n    ngroups = -(-n // size)\n    return [tuple(range(i, n, ngroups)) for i in range(ngroups)]\n\n\n@lru_cache\ndef get_parts(split_every_items, chunks):',
@@ -118,12 +119,51 @@ VARIANTS = [
     V("reindex_ promotes for every fill", ("C11",), "R-REINDEXDTYPE", "core.py", '    if xrdtypes.NA == fill_value or isnull(fill_value):\n        new_dtype, fill_value = xrdtypes.maybe_promote(array.dtype)\n    else:\n        new_dtype = array.dtype\n',
       '    new_dtype, promoted_fill = xrdtypes.maybe_promote(array.dtype)\n    if xrdtypes.NA == fill_value or isnull(fill_value):\n        fill_value = promoted_fill\n', must_mention="promotes the dtype for every fill"),
     V("reindex kernel recomputes its dtype", ("C11",), "R-REINDEXDTYPE", "core.py", '        reindexed = reindexed.astype(dtype, copy=False)\n', '        reindexed = reindexed.astype(np.result_type(dtype, fill_value), copy=False)\n', must_mention="reindex_numpy"),
-    V("twin: reindex_ dtype through a differently named local", ("C11",), "", "core.py", '        new_dtype = array.dtype\n', '        new_dtype = array.dtype  # unchanged\n', expect="silent"),
+    V("twin: reindex_ dtype bound through an intermediate local", ("C11",), "", "core.py", '    else:\n        new_dtype = array.dtype\n\n    if array_type is ReindexArrayType.AUTO:', '    else:\n        same = array.dtype\n        new_dtype = same\n\n    if array_type is ReindexArrayType.AUTO:', expect="silent"),
+    # ---------------- R-NAMES / R-ATTR / R-DICTKEYS (C19)
+    V("dangling name after a refactor (math.prod -> prod)", ("C19",), "R-NAMES", "core.py", '    sparsity = bitmask.nnz / math.prod(bitmask.shape)', '    sparsity = bitmask.nnz / prod(bitmask.shape)', must_mention="prod"),
+    V("TYPE_CHECKING-only name evaluated at run time", ("C19",), "R-NAMES", "core.py", '        if TYPE_CHECKING:\n            # TODO: How else to narrow that array.chunks is there?\n            assert isinstance(array, DaskArray)', '        if not isinstance(array, DaskArray):\n            raise ValueError("expected a dask array")', must_mention="DaskArray"),
+    V("misspelt attribute of the reindex strategy", ("C19",), "R-ATTR", "core.py", '        if count_mask.any() or reindex.array_type is ReindexArrayType.SPARSE_COO:', '        if count_mask.any() or reindex.arraytype is ReindexArrayType.SPARSE_COO:', must_mention="arraytype"),
+    V("renamed blueprint field still read", ("C19",), "R-ATTR", "aggregations.py", '        return self.new_dims_func(**self.finalize_kwargs)', '        return self.new_dim_func(**self.finalize_kwargs)', must_mention="new_dim_func"),
+    V("unknown enum member", ("C19",), "R-ATTR", "core.py", '        if count_mask.any() or reindex.array_type is ReindexArrayType.SPARSE_COO:', '        if count_mask.any() or reindex.array_type is ReindexArrayType.SPARSE:', must_mention="SPARSE"),
+    V("slot key never written", ("C19",), "R-DICTKEYS", "core.py", '                dtype=agg.dtype["intermediate"],\n                reindex=reindex,\n                user_dtype=agg.dtype["user"],', '                dtype=agg.dtype["intermediate"],\n                reindex=reindex,\n                user_dtype=agg.dtype["requested"],', must_mention="requested"),
+    V("twin: new blueprint attribute written in __init__ and read", ("C19",), "", "aggregations.py", '        self.new_dims_func: Callable = returns_empty_tuple if new_dims_func is None else new_dims_func\n', '        self.new_dims_func: Callable = returns_empty_tuple if new_dims_func is None else new_dims_func\n        self.has_new_dims = new_dims_func is not None\n        assert self.has_new_dims in (True, False)\n', expect="silent"),
+    # ---------------- R-LAYOUT (C08)
+    V("collapse in memory order (order='A')", ("C08", "C01"), "R-LAYOUT", "core.py", '    return arr.reshape(newshape)', '    return arr.reshape(newshape, order="A")', must_mention="_collapse_axis"),
+    V("values flattened in Fortran order without their labels", ("C08",), "R-LAYOUT", "core.py", '                group_idx = group_idx.reshape(-1, order="F")\n                order = "F"', '                order = "F"', must_mention="Fortran"),
+    V("labels flattened in Fortran order without their values", ("C08",), "R-LAYOUT", "core.py", '                group_idx = group_idx.reshape(-1, order="F")\n                order = "F"', '                group_idx = group_idx.reshape(-1, order="F")', must_mention="Fortran"),
+    V("twin: explicit order='C'", ("C08",), "", "core.py", '    return arr.reshape(newshape)', '    return arr.reshape(newshape, order="C")', expect="silent"),
+    # ---------------- R-UNIQUEFROM (C19)
+    V("blockwise duplicate refusal removed", ("C19",), "R-UNIQUEFROM", "core.py", '        if method == "blockwise" and not pd.Index(groups_).is_unique:\n            raise ValueError(', '        if False:\n            raise ValueError(', must_mention="duplicates"),
+    V("twin: uniqueness refusal written with np.unique", ("C19",), "", "core.py", '        if method == "blockwise" and not pd.Index(groups_).is_unique:', '        if method == "blockwise" and len(np.unique(groups_)) != groups_.size:', expect="silent"),
+    # ---------------- R-EMPTYIDX / R-FILLNONE (C19), R-SUBSUMED (C04, C11)
+    V("last requested label read from a possibly empty index", ("C19",), "R-EMPTYIDX", "core.py", '    elif len(expected_groups) > 0:\n        nlabels = expected_groups[-1] + 1\n    else:\n        # no label is present (all are missing): there is nothing to group, any plan will do\n        return "map-reduce", {}\n', '    else:\n        nlabels = expected_groups[-1] + 1\n', must_mention="expected_groups[-1]"),
+    V("twin: emptiness tested through .size", ("C19",), "", "core.py", '    elif len(expected_groups) > 0:\n        nlabels = expected_groups[-1] + 1', '    elif expected_groups.size > 0:\n        nlabels = expected_groups[-1] + 1', expect="silent"),
+    V("all-missing shortcut fills with a None fill value", ("C19",), "R-FILLNONE", "core.py", '            if fill_value is None:\n                if len(to) > 0:\n                    raise ValueError("Filling is required. fill_value cannot be None.")\n                reindexed = np.empty_like(array, shape=shape)\n            else:\n', '            if True:\n', must_mention="fill_value=None"),
+    V("reindex kernel fills without refusing None", ("C19",), "R-FILLNONE", "core.py", '        if fill_value is None:\n            raise ValueError("Filling is required. fill_value cannot be None.")\n        indexer[axis] = idx == -1', '        indexer[axis] = idx == -1', must_mention="reindex_numpy"),
+    V("timedelta tested after integer in maybe_promote", ("C04", "C11"), "R-SUBSUMED", "xrdtypes.py", '    elif np.issubdtype(dtype, np.timedelta64):\n        # See https://github.com/numpy/numpy/issues/10685\n        # np.timedelta64 is a subclass of np.integer\n        # Check np.timedelta64 before np.integer\n        fill_value = np.timedelta64("NaT")\n    elif np.issubdtype(dtype, np.integer):\n        dtype = np.float32 if dtype.itemsize <= 2 else np.float64\n        fill_value = np.nan\n',
+      '    elif np.issubdtype(dtype, np.integer):\n        dtype = np.float32 if dtype.itemsize <= 2 else np.float64\n        fill_value = np.nan\n    elif np.issubdtype(dtype, np.timedelta64):\n        fill_value = np.timedelta64("NaT")\n', must_mention="timedelta64"),
+    # ---------------- R-PLAN all-blocks clause (C02, C05)
+    V("complete blocks skip the re-indexer in the simple combine", ("C02",), "R-PLAN", "core.py", '        x_chunk = deepmap(\n            partial(\n                reindex_intermediates,\n                agg=agg,\n                unique_groups=unique_groups,\n                array_type=reindex.array_type,\n            ),\n            x_chunk,\n        )',
+      '        reindexer = partial(reindex_intermediates, agg=agg, unique_groups=unique_groups, array_type=reindex.array_type)\n        x_chunk = deepmap(lambda x: x if x["groups"].shape[-1] == len(unique_groups) else reindexer(x), x_chunk)', must_mention="bypass"),
+    V("twin: re-indexer bound to a local first", ("C02",), "", "core.py", '        x_chunk = deepmap(\n            partial(\n                reindex_intermediates,\n                agg=agg,\n                unique_groups=unique_groups,\n                array_type=reindex.array_type,\n            ),\n            x_chunk,\n        )',
+      '        reindexer = partial(reindex_intermediates, agg=agg, unique_groups=unique_groups, array_type=reindex.array_type)\n        x_chunk = deepmap(reindexer, x_chunk)', expect="silent"),
+    # ---------------- R-LOOPSTORE (C09, C19)
+    V("cohort map overwrites a repeated block set", ("C09", "C19"), "R-LOOPSTORE", "core.py", '        merged_cohorts[chunk] = sorted(merged_cohorts.get(chunk, []) + cohort)', '        merged_cohorts[chunk] = cohort', must_mention="merged_cohorts"),
+    V("twin: cohort map merges under an explicit membership test", ("C09", "C19", "C02"), "", "core.py", '        merged_cohorts[chunk] = sorted(merged_cohorts.get(chunk, []) + cohort)',
+      '        if chunk in merged_cohorts:\n            merged_cohorts[chunk] = sorted(merged_cohorts[chunk] + cohort)\n        else:\n            merged_cohorts[chunk] = cohort', expect="silent"),
     # ---------------- R-CLOSEDSIDE (C07)
     V("outer-edge mask ignores the closed side", ("C07",), "R-CLOSEDSIDE", "core.py", '            within_bins = flat <= bins.max() if right else flat < bins.max()', '            within_bins = flat <= bins.max()', must_mention="outer"),
     V("digitize always left-closed", ("C07",), "R-CLOSEDSIDE", "core.py", '                right=right,\n            )\n            idx -= 1', '                right=False,\n            )\n            idx -= 1', must_mention="digitize"),
     V("outer-edge mask dropped", ("C07",), "R-CLOSEDSIDE", "core.py", '            idx[~within_bins] = -1\n', '', must_mention="outer"),
     V("twin: closed side read directly from the index in the mask", ("C07",), "", "core.py", '            within_bins = flat <= bins.max() if right else flat < bins.max()', '            within_bins = (flat <= bins.max()) if expect.closed == "right" else (flat < bins.max())', expect="silent"),
+    # ---------------- R-MISSINGCODE (C01, C05, C07)
+    V("np.unique codes for datetime labels (NaT gets a code)", ("C01", "C05", "C07"), "R-MISSINGCODE", "core.py", '        else:\n            idx, groups = pd.factorize(flat, sort=sort)', '        elif sort and flat.dtype.kind in "iuMm":\n            groups, idx = np.unique(flat, return_inverse=True)\n        else:\n            idx, groups = pd.factorize(flat, sort=sort)', must_mention="np.unique"),
+    V("requested-label lookup without a missing mask", ("C05", "C07"), "R-MISSINGCODE", "core.py", '            mask = ~np.isin(flat, expect) | isnull(flat) | (idx == len(expect))', '            mask = idx == len(expect)', must_mention="searchsorted"),
+    V("twin: np.unique codes for integer labels only", ("C01", "C05", "C07"), "", "core.py", '        else:\n            idx, groups = pd.factorize(flat, sort=sort)', '        elif sort and flat.dtype.kind in "iu":\n            groups, idx = np.unique(flat, return_inverse=True)\n        else:\n            idx, groups = pd.factorize(flat, sort=sort)', expect="silent"),
+    V("twin: redundant isnull dropped from the lookup mask", ("C05", "C07"), "", "core.py", '            mask = ~np.isin(flat, expect) | isnull(flat) | (idx == len(expect))', '            mask = ~np.isin(flat, expect) | (idx == len(expect))', expect="silent"),
+    # ---------------- R-CODEDEP (C07)
+    V("single-group grouper coded as zeros (lazy labels)", ("C07",), "R-CODEDEP", "core.py", '            for by_, expect_ in zip(by_chunked, expected_groups)\n        ]', '            if len(expect_) != 1\n            else dask.array.zeros(by_.shape, chunks=by_.chunks, dtype=np.int64)\n            for by_, expect_ in zip(by_chunked, expected_groups)\n        ]', must_mention="metadata"),
     # ---------------- R-LABELVALUE (C05, C07)
     V("labels cast to the requested dtype before lookup", ("C05", "C07"), "R-LABELVALUE", "core.py", '            idx = np.searchsorted(expect, flat, sorter=sorter)', '            idx = np.searchsorted(expect, flat.astype(expect.dtype), sorter=sorter)', must_mention="searchsorted"),
     V("NaN labels substituted before factorizing", ("C05", "C07"), "R-LABELVALUE", "core.py", '            idx, groups = pd.factorize(flat, sort=sort)', '            flat = np.nan_to_num(flat)\n            idx, groups = pd.factorize(flat, sort=sort)', must_mention="factorize"),
